@@ -265,6 +265,7 @@ func (k *c12Case) sealOp(i int, seal bool) string {
 		k.out.Op(cl, "sealns", vh.HexS(n.path), c12B(seal))
 		return "ok"
 	}
+	mark := ""
 	if cl == "ok" {
 		if seal {
 			for _, m := range k.nss {
@@ -274,12 +275,33 @@ func (k *c12Case) sealOp(i int, seal bool) string {
 			}
 		} else {
 			k.pending[i] = false
+			// "readable again after unsealing": every namespace below the unsealed one that is not behind another
+			// seal still waiting for its own shares is known to the namespace store again
+			for _, m := range k.nss {
+				if m.ord == i || !strings.HasPrefix(m.path, n.path) {
+					continue
+				}
+				hidden := false
+				for _, q := range k.nss {
+					if q.sealable && k.pending[q.ord] && strings.HasPrefix(m.path, q.path) && q.path != m.path {
+						hidden = true
+					}
+				}
+				if hidden {
+					continue
+				}
+				got, gerr := k.c.namespaceStore.GetNamespaceByPath(vhRootCtx(), m.path)
+				if gerr != nil || got == nil || got.Path != m.path {
+					mark = "!VIOL:after the accepted unseal of " + n.path + " its descendant namespace " + m.path + " is missing from the namespace store (requests for it are resolved into an ancestor; it can be created a second time)#namespace-lost-after-unseal"
+					break
+				}
+			}
 		}
 	}
 	if os.Getenv("VERIF_DEBUG_C12") != "" && cl != "ok" {
 		fmt.Fprintf(os.Stderr, "c12: sealns %s seal=%v => %s (%v %v)\n", n.path, seal, cl, err, resp)
 	}
-	k.out.Op(cl, "sealns", vh.HexS(n.path), c12B(seal))
+	k.out.Op(cl+mark, "sealns", vh.HexS(n.path), c12B(seal))
 	return cl
 }
 
@@ -834,6 +856,7 @@ func TestVerifC12Confine(t *testing.T) {
 			k.addNs("sn/", true)
 			sealIdx = 3
 			k.addNs("sn/c/", false)
+			k.addNs("sn/c/d/", false) // a GRANDchild of the separately sealed namespace (must be back after its unseal)
 		default:
 			k.addNs("n1/", false)
 			k.addNs("n10/", false)
